@@ -478,10 +478,25 @@ func genC14(r *R, n int, tier string, out *Out) {
 			isObj = i == 1
 		}
 		long := r.chance(0.03) // a long container: multiplicities up to 40 per kind
+		only := -1             // a homogeneous container (the All* family holds on these): one kind, special values included
+		if r.chance(0.07) {
+			only = 1 + r.Intn(6)
+			if r.chance(0.3) {
+				only = 3 // floats
+			}
+		}
 		for k := 0; k < 7 && i >= 2; k++ {
 			m := pickOf(r, []int{0, 0, 1, 3, 2})
 			if long {
 				m = pickOf(r, []int{0, 1, 9, 17, 33, 40})
+			}
+			if only >= 0 {
+				m = 0
+				if k == only {
+					m = 1 + r.Intn(6)
+				} else if only == 3 && k == 2 && r.chance(0.3) {
+					m = 1 // numeric: ints among the floats
+				}
 			}
 			for j := 0; j < m; j++ {
 				var e *V
@@ -494,6 +509,9 @@ func genC14(r *R, n int, tier string, out *Out) {
 					e = vint(r.intVal())
 				case 3:
 					e = vfloat(o.Floats(r))
+					if only == 3 && r.chance(0.25) {
+						e = vfloat(pickOf(r, []float64{math.NaN(), math.Inf(1), math.Inf(-1), math.Copysign(0, -1), 0}))
+					}
 				case 4:
 					e = vstr(r.str())
 				case 5:
@@ -777,9 +795,9 @@ func genC17(r *R, n int, tier string, out *Out) {
 		if r.chance(0.03) {
 			ln = r.stressSize()
 		}
-		if i < 9 {
-			ln = []int{1025, 4101, 4102, 1030, 4099, 257, 5003, 1023, 4097}[i]
-			mode = i % 3 // (ints with duplicates, extreme ints, ... : the first modes)
+		if i < 12 {
+			ln = []int{1025, 4101, 4102, 1030, 4099, 257, 5003, 1023, 4097, 70, 131, 64}[i]
+			mode = i % 4 // (ints with duplicates, extreme ints, strings, floats from a small pool with both zeros: the first modes)
 		}
 		var elems []*V
 		tag := ""
